@@ -1,5 +1,6 @@
 SPECIFICATION GSpec
 CONSTANTS
+  Items = {"field", "kv", "kvs", "md", "roy", "owner", "role"}
   K = 8
 INVARIANT Emit
 CHECK_DEADLOCK FALSE
